@@ -9,6 +9,8 @@
 
 use std::cell::{Cell, RefCell};
 
+use crate::deadline_support::Instant;
+
 /// The virtual clock consulted by `deadline_exceeded`.
 #[derive(Debug, Clone, Copy, PartialEq, Eq)]
 pub enum Clock {
@@ -29,6 +31,7 @@ thread_local! {
     static NOW: Cell<u64> = Cell::new(0);
     static FIRST_EXPIRED: Cell<Option<(u64, u64)>> = Cell::new(None);
     static PROBE_TIMES: RefCell<Option<Vec<u64>>> = RefCell::new(None);
+    static LAST_DEADLINE: Cell<Option<Instant>> = Cell::new(None);
     static SWAPS: Cell<u64> = Cell::new(0);
     static SWAP_REPAIR: Cell<bool> = Cell::new(false);
     static UNIQUE_ORDERS: RefCell<Option<Vec<(u64, bool)>>> = RefCell::new(None);
@@ -42,6 +45,7 @@ pub fn set_clock(clock: Clock) {
     PROBES_NO_DEADLINE.with(|c| c.set(0));
     NOW.with(|c| c.set(0));
     FIRST_EXPIRED.with(|c| c.set(None));
+    LAST_DEADLINE.with(|c| c.set(None));
     PROBE_TIMES.with(|c| {
         if let Some(v) = c.borrow_mut().as_mut() {
             v.clear();
@@ -86,12 +90,19 @@ pub fn now() -> u64 {
     NOW.with(|c| c.get())
 }
 
+/// The deadline carried by the most recent deadline-carrying probe since the
+/// clock was last set (what actually reached the algorithm).
+pub fn last_deadline() -> Option<Instant> {
+    LAST_DEADLINE.with(|c| c.get())
+}
+
 /// Called by `deadline_exceeded`.  `None` means "use the real clock".
-pub(crate) fn probe(has_deadline: bool) -> Option<bool> {
-    if !has_deadline {
+pub(crate) fn probe(deadline: Option<Instant>) -> Option<bool> {
+    if deadline.is_none() {
         PROBES_NO_DEADLINE.with(|c| c.set(c.get() + 1));
         return None;
     }
+    LAST_DEADLINE.with(|c| c.set(deadline));
     let idx = PROBES_DEADLINE.with(|c| {
         let idx = c.get();
         c.set(idx + 1);
